@@ -50,9 +50,8 @@ func c12He(n, d *big.Int) *big.Int {
 }
 
 func c12Operand(name string, lim *big.Int) *big.Int {
-	a := vNondetBig(name)
-	vAssume(a.CmpAbs(lim) < 0)
-	return a
+	max := new(big.Int).Sub(lim, big.NewInt(1))
+	return vNondetBigRange(name, new(big.Int).Neg(max), max)
 }
 
 func c12BD(a *big.Int) BigDec { return BigDec{i: new(big.Int).Set(a)} }
